@@ -2055,6 +2055,10 @@ class _NConn:
         self.resets = set()
         self.stray = []
         self.wire_open = None
+        self.skip = {'L': 0, 'R': 0}            # SOCKS replies are not payload
+        self.t_fin = {'L': None, 'R': None}     # virtual time of FIN / last write
+        self.t_write = {'L': None, 'R': None}
+        self.t_close = {'L': None, 'R': None}
 
 
 def record_natural(seed, kind='local', nconn=1, mode='mixed'):
@@ -2106,7 +2110,7 @@ def record_natural(seed, kind='local', nconn=1, mode='mixed'):
             t = ft(c, e)
             if t is None:
                 continue
-            total = sum(len(x) for x in t.writes)
+            total = max(0, sum(len(x) for x in t.writes) - c.skip[e])
             delta = total - c.seen_total[e]
             c.seen_total[e] = total
             if c.app_open[e]:
@@ -2183,7 +2187,8 @@ def record_natural(seed, kind='local', nconn=1, mode='mixed'):
         def eof_received():
             res = o_eof()
             if not c.fin_logged[e]:
-                log(c, 'C' if c.app[e].closed else 'E', side=x, end=e)
+                log(c, 'C' if c.app[e].closed else 'E', side=x, end=e,
+                    late=False)
             return res
         f.data_received = data_received
         f.eof_received = eof_received
@@ -2311,22 +2316,27 @@ def record_natural(seed, kind='local', nconn=1, mode='mixed'):
         app = c.app[e]
         data = unit(c, e, n)
         c.sent[e] += data
+        c.t_write[e] = loop.time()
         app.write(data)
 
     def act_eof(c, e):
         app = c.app[e]
+        c.t_fin[e] = loop.time()
         app.write_eof()
         if logically_closed(c, e) and not c.fin_logged[e]:
-            log(c, 'E', side=None, end=e)
+            log(c, 'E', side=None, end=e, late=True)
 
     def act_close(c, e):
         app = c.app[e]
         if not app.eof_seen:
             c.exempt.add(e)
+        c.t_close[e] = loop.time()
+        if c.t_fin[e] is None:
+            c.t_fin[e] = loop.time()
         app.close()
         if (c.fin_logged[e] or logically_closed(c, e)) and \
                 not c.close_logged[e]:
-            log(c, 'C', side=None, end=e)
+            log(c, 'C', side=None, end=e, late=True)
 
     def act_reset(c, e):
         if logically_closed(c, e) or state['cut']:
@@ -2352,8 +2362,10 @@ def record_natural(seed, kind='local', nconn=1, mode='mixed'):
         else:
             return
         nwrites = 0
-        for _ in range(rng.randint(2, 9)):
-            await asyncio.sleep(rng.choice([0, 0, 0.0003, 0.001, 0.003, 0.008]))
+        eager = e == 'L' and rng.random() < 0.5
+        for step in range(rng.randint(2, 9)):
+            await asyncio.sleep(0 if eager and step < 3 else
+                                rng.choice([0, 0, 0.0003, 0.001, 0.003, 0.008]))
             if state['stop'] or app.closed or app.lost:
                 return
             r = rng.random()
@@ -2362,7 +2374,8 @@ def record_natural(seed, kind='local', nconn=1, mode='mixed'):
                 return
             if r < 0.62 and not app.fin_sent and nwrites < 6:
                 nwrites += 1
-                act_write(c, e, rng.choice([1, 2, 17, 300, 1500, 4000]))
+                act_write(c, e, rng.choice([1, 2, 5, 17, 40] if 'tiny' in mode
+                                           else [1, 2, 17, 300, 1500, 4000]))
             elif r < 0.74 and not app.fin_sent:
                 act_eof(c, e)
             elif r < 0.84:
@@ -2376,10 +2389,10 @@ def record_natural(seed, kind='local', nconn=1, mode='mixed'):
         if not (state['stop'] or app.closed or app.lost):
             if not app.fin_sent and rng.random() < 0.7:
                 act_eof(c, e)
-            for _ in range(40):
+            for _ in range(60):
                 if app.eof_seen or state['stop']:
                     break
-                await asyncio.sleep(0.001)
+                await asyncio.sleep(0.005)
             if not (app.closed or app.lost or state['stop']) and \
                     rng.random() < 0.8:
                 act_close(c, e)
@@ -2398,6 +2411,7 @@ def record_natural(seed, kind='local', nconn=1, mode='mixed'):
         if kind.startswith('socks'):
             msgs, replies = socks_request(kind, 'desthost', R_PORT)
             want = 0
+            c.skip['L'] = len(b''.join(replies))
             for m, rep_ in zip(msgs, replies):
                 app.t.write(m)
                 want += len(rep_)
@@ -2409,7 +2423,6 @@ def record_natural(seed, kind='local', nconn=1, mode='mixed'):
             if bytes(app.data[:want]) != b''.join(replies):
                 flag('SocksReply', f'unexpected SOCKS reply '
                      f'{bytes(app.data[:want]).hex()}')
-        c.seen_total['L'] = sum(len(x) for x in app.t.peer.writes)
 
     async def one_connection(c, delay):
         await asyncio.sleep(delay)
@@ -2448,6 +2461,12 @@ def record_natural(seed, kind='local', nconn=1, mode='mixed'):
         state['refused'] = True
         w.rsrv.close()
 
+    async def late_confirm():
+        # the accepting side does not read for a while: late confirmation
+        tA.auto = False
+        await asyncio.sleep(rng.choice([0.0005, 0.002, 0.005]))
+        tA.auto = True
+
     async def staller():
         for _ in range(12):
             await asyncio.sleep(rng.choice([0.0004, 0.001, 0.003]))
@@ -2474,9 +2493,12 @@ def record_natural(seed, kind='local', nconn=1, mode='mixed'):
             tasks.append(refuser())
         if 'stall' in mode or mode == 'mixed':
             tasks.append(staller())
+        if rng.random() < 0.4:
+            tasks.append(late_confirm())
         await asyncio.gather(*tasks)
 
     _verif.set_sink(sink)
+    consumed[0] = sum(len(x) for x in tA.writes)    # everything was read
     tO.chunker = chunk_o
     if 'whole' not in mode:
         tA.chunker = lambda avail: rng.randint(1, max(1, avail))
@@ -2532,15 +2554,23 @@ def record_natural(seed, kind='local', nconn=1, mode='mixed'):
             if clean and R is None:
                 flag('Complete', f'connection {c.idx}: the open was not '
                      'refused but the destination was never connected')
+            grace = 0.15        # virtual seconds; stalls add up to < 0.05
+
+            def gone_early(e, t_event):
+                """e closed before what o did at t_event could reach it"""
+                return e in c.exempt and (
+                    t_event is None or c.t_close[e] is None or
+                    c.t_close[e] < t_event + grace)
             if clean and R is not None:
                 for e, o in (('R', 'L'), ('L', 'R')):
                     a, b = c.app[e], c.app[o]
-                    if e not in c.exempt and \
+                    if not gone_early(e, c.t_write[o]) and \
                             a.payload() != bytes(c.sent[o]):
                         flag('Complete', f'connection {c.idx}: {e} received '
                              f'{len(a.payload())} of the {len(c.sent[o])} '
                              f'bytes {o} sent')
-                    if b.fin_sent and not (a.eof_seen or e in c.exempt):
+                    if b.fin_sent and not (a.eof_seen or
+                                           gone_early(e, c.t_fin[o])):
                         flag('HalfClose', f'connection {c.idx}: {o} sent EOF '
                              f'but {e} never saw it')
             if remote and c.wire_open and 'dest' in c.wire_open and \
@@ -2553,7 +2583,7 @@ def record_natural(seed, kind='local', nconn=1, mode='mixed'):
                 flag('FailureClean', f'connection {c.idx}: open was refused '
                      'but the local connection was not closed')
             for x in 'OA':
-                if c.pending_out[x]:
+                if c.pending_out[x] and not state['cut']:
                     c.stray.append((x, c.pending_out[x]))
             res['traces'].append({'ev': c.ev, 'usz': c.usz,
                                   'idx': c.idx, 'stray': c.stray})
